@@ -9,6 +9,7 @@
       from  |-> "h1" | "h2" | "h3",      version the message was received over
       to    |-> "h1" | "h2" | "h3",      version of the next hop
       cls   |-> class of the message (see props/C06.py),  mode |-> "buffered" | "streamed",
+      win   |-> "open" | "tight"         tight: the HTTP/2 next hop grants flow-control credit a few bytes at a time
       valid |-> BOOLEAN                  the message is a legitimate message of version "from"
       bodydef |-> BOOLEAN                FALSE: declared content-length and DATA sent disagree (no well-defined body)
       sent  |-> Msg                      semantic tuple of what the harness sent
@@ -83,6 +84,7 @@ MonStep(m, ev) ==
                            \cup W(Fwd(ev) /\ ev.complete /\ Carries(ev.to) /\ ev.sent.trailers # <<>>, "trailers_carried")
                            \cup W(Fwd(ev) /\ ev.complete /\ ev.sent.body # <<>>, "body")
                            \cup W(Fwd(ev) /\ ev.to = "h1" /\ ev.from # "h1", "downgrade_to_h1") \cup W(ev.own, "proxy_error_page")
-                           \cup W(ev.mode = "streamed", "streamed")]
+                           \cup W(ev.mode = "streamed", "streamed")
+                           \cup W(Get(ev, "win", "open") = "tight" /\ Fwd(ev) /\ ev.complete /\ ev.sent.body # <<>>, "body_through_tight_window")]
 Wit(m) == m.wit
 =============================================================================
